@@ -126,7 +126,10 @@ pub fn gen_rule(rng: &mut Rng, id: usize, depth: u32) -> String {
     s
 }
 
-const SEPS: &[&str] = &[" ", " ", " ", "\n", "\t", "  ", " /* c */ ", " // c\n", "\r\n", "\u{a0}", " /* a\nb */ ", "\u{2003}", "\n\n", "\r"];
+const SEPS: &[&str] = &[" ", " ", " ", "\n", "\t", "  ", " /* c */ ", " // c\n", "\r\n", "\u{a0}", " /* a\nb */ ", "\u{2003}", "\n\n", "\r",
+    // comments with 2/3/4-byte characters on the first, middle and last line; more tokens follow on the same line
+    " /* a\n\u{e9}\u{1f600} */ ", " /* \u{1f600}\nb */ ", " /* \u{20ac}\r\n\u{1f600}\u{1f600}\r\n\u{e9} */ ", "/* \n\u{1f600} */", " /* \u{1f600}\u{e9}\u{20ac} */ ",
+    " // \u{1f600}\n", " /* x\n\n\u{4e2d}\u{1f600}y */"];
 
 /// replace some single spaces by other separators (comments, newlines, non-ASCII spaces)
 pub fn vary_whitespace(rng: &mut Rng, s: &str, p: u64) -> String {
